@@ -457,9 +457,9 @@ def e2e_scenarios(run, ctx, tier):
     def S(side_src=None, side_dest=None, deploy=None, resp=None, family=''):
         sc.append({'kind': 'e2e', 'family': family, 'src': side_src, 'dest': side_dest, 'deploy': deploy, 'resp': resp})
 
-    def side(state, orders=None, scp='copy', ostest='ok', chmod='ok', user=''):
+    def side(state, orders=None, scp='copy', ostest='ok', chmod='ok', user='', first_marker=False):
         return {'state': state, 'orders': orders or [L.HANDSHAKE_ORDERS[0], L.HANDSHAKE_ORDERS[0]], 'scp': scp, 'ostest': ostest,
-                'chmod': chmod, 'user': user}
+                'chmod': chmod, 'user': user, 'first_marker': first_marker}
     states = ['absent', 'same', 'other:9.9.9', 'broken:silent']
     deploys = [(None, None), (None, 'Deploy'), (None, 'Cancel sync'), ('prompt', None), ('prompt', 'Deploy'), ('prompt', 'Cancel sync'),
                ('error', None), ('ok', None), ('force', None)]
@@ -500,6 +500,25 @@ def e2e_scenarios(run, ctx, tier):
     for a, b, d, r in both:
         oa, ob = rng.choice(L.HANDSHAKE_ORDERS), rng.choice(L.HANDSHAKE_ORDERS)
         S(side(a, [oa, oa], user=rng.choice(['', 'alice'])), side(b, [ob, ob], user=rng.choice(['', 'bob'])), d, r, 'both')
+    # C'. a deploy-and-retry in which BOTH launches are given a key: the first launch (a same-version doer) announces
+    # the own version on stdout - the key is written - and then a "not present" text arrives, which makes the launch
+    # NotPresentOnRemote (model behaviour, see design.d/C15.md), so the boss deploys and launches again.  Every launch
+    # gets a newly generated key: the two key lines must differ (and differ from the other side's key).
+    def marker_first(order, m):
+        o, done = [], False
+        for tok in order:
+            o.append(tok)
+            if tok == 'So' and not done:
+                o.append(['n', 'e', 'bash: line 1: ' + m]); done = True
+        return o
+    retry_orders = L.HANDSHAKE_ORDERS if tier == 'thorough' else [L.HANDSHAKE_ORDERS[0], rng.choice(L.HANDSHAKE_ORDERS[1:])]
+    for k, order in enumerate(retry_orders):
+        m = MARKERS[k % len(MARKERS)]
+        S(None, side('same', [marker_first(order, m), order], first_marker=True), 'ok', None, 'retry-two-keys')
+        S(side('same', [marker_first(order, m), order], first_marker=True), None, None, '1:.*:Deploy', 'retry-two-keys')
+    S(side('same', [marker_first(L.HANDSHAKE_ORDERS[0], MARKERS[0]), L.HANDSHAKE_ORDERS[0]], first_marker=True, user='alice'),
+      side('same', [marker_first(L.HANDSHAKE_ORDERS[0], MARKERS[0]), L.HANDSHAKE_ORDERS[0]], first_marker=True), 'ok', None, 'retry-two-keys-both')
+    S(side('same', [marker_first(L.HANDSHAKE_ORDERS[0], MARKERS[0]), L.HANDSHAKE_ORDERS[0]], first_marker=True), side('same'), 'ok', None, 'retry-two-keys-both')
     # D. the world misbehaves during deployment
     for st in ('absent', 'other:9.9.9'):
         for kw in ({'scp': 'drop'}, {'scp': 'fail'}, {'ostest': 'fail'}, {'ostest': 'windows'}, {'ostest': 'unknown'}, {'chmod': 'fail'}):
@@ -556,7 +575,8 @@ def model_side_args(sc, which):
     if not sd:
         return 'local'
     beh = {None: 'Prompt', 'prompt': 'Prompt', 'error': 'Error', 'ok': 'Ok', 'force': 'Force'}[sc.get('deploy')]
-    l1 = l_of_state(sd['state'])
+    # (what the first launch reports: a "not present" text after the Started line makes it NotPresentOnRemote)
+    l1 = 'N' if sd.get('first_marker') else l_of_state(sd['state'])
     # what the second launch finds: the uploaded binary when the upload really happened, else what was there
     l2 = 'S' if sd['scp'] == 'copy' else l1
     osm = {'ok': 'unix1', 'fail': 'fail', 'windows': 'win0', 'unknown': 'unix0'}[sd['ostest']]
@@ -608,6 +628,16 @@ def e2e_cases(run, ctx, tier):
     model = [a if r is None else next(second) for a, r in zip(first, reqs2)]
     for sc, o, m in zip(scs, obs, model):
         judge_e2e(run, ctx, sc, o, m)
+    # the key-freshness comparison must not be vacuous: runs with a key on both sides, and a retry with a key per launch
+    if only_corpus_free(scs):
+        for key in ('e2e:both-remote-runs-with-a-key-per-side', 'e2e:retry-runs-with-a-key-per-launch'):
+            if not run.distribution.get(key):
+                run.broke('correspondence', 'key-freshness-leg-vacuous', 'no run of the e2e leg produced ' + key)
+
+
+def only_corpus_free(scs):
+    """(a replay of one recorded scenario runs the whole family anyway; kept as a function for clarity)"""
+    return len(scs) > 5
 
 
 def judge_e2e(run, ctx, sc, o, m):
@@ -704,7 +734,7 @@ def judge_e2e(run, ctx, sc, o, m):
             if ln['keys'] and 'So' not in (ln.get('key_after') or []):
                 run.fail('C15 oracle: key arrived before the stdout Started line was passed on (%s): after %r' % (w, ln.get('key_after')), rep)
         # (f) a same-version doer behind any in-domain interleaving is used, without any deployment
-        if sd['state'] == 'same' and sc.get('deploy') != 'force' and p['launches']:
+        if sd['state'] == 'same' and sc.get('deploy') != 'force' and p['launches'] and not sd.get('first_marker'):
             if p['uploads'] or p['acts'] != ['L'] or len(p['launches'][0]['keys']) != 1:
                 run.fail('C15 oracle: same-version doer on %s was not used directly (actions %r, keys %r)' % (w, p['acts'], p['launches'][0]['keys']), rep)
     if sc.get('deploy') in (None, 'prompt'):
@@ -720,11 +750,30 @@ def judge_e2e(run, ctx, sc, o, m):
             last = p['launches'][-1] if p['launches'] else None
             if not last or last['announced'] != ctx.version or len(last['keys']) != 1:
                 run.fail('C15 oracle: sync went ahead although the doer on %s announced %r' % (host_side[h], last and last['announced']), rep)
-    # (e) newly generated keys
+    # (e) "every doer launch gets a newly generated 128-bit key": the key lines the fake ssh saw written to the doers'
+    # stdin, compared (as 128-bit values) between the launches of one run - the two launches of a deploy-and-retry on one
+    # host, and the launches for source and destination when both are remote
+    def kval(k):
+        return int(k, 16) if key_line_ok(k) else k
+    keyed = [(host_side[h], ln['n'], kval(ln['keys'][0])) for h, p in sorted(per_host.items()) for ln in p['launches'] if ln['keys']]
+    for a in range(len(keyed)):
+        for b in range(a + 1, len(keyed)):
+            (w1, n1, k1), (w2, n2, k2) = keyed[a], keyed[b]
+            if k1 == k2:
+                if w1 == w2:
+                    run.fail('C15 oracle: launch %d on %s (after the deployment) was given the same key as launch %d - not a newly generated key' % (n2, w2, n1),
+                             dict(rep, key_lines=all_keys))
+                else:
+                    run.fail('C15 oracle: the doer launches for %s and %s of one run were given the same key - not a newly generated key per launch' % (w1, w2),
+                             dict(rep, key_lines=all_keys))
     if len(set(all_keys)) != len(all_keys):
         run.fail('C15 oracle: a key was reused across launches: %r' % all_keys, rep)
     if len(all_keys) >= 2:
         run.count('e2e:runs-with-two-or-more-keys')
+    if len({w for w, _, _ in keyed}) == 2:
+        run.count('e2e:both-remote-runs-with-a-key-per-side')
+    if any(sum(1 for w, _, _ in keyed if w == x) >= 2 for x in ('src', 'dest')):
+        run.count('e2e:retry-runs-with-a-key-per-launch')
     # all same-version sides with consent or no need: the run must succeed
     needs = [w for w in ('src', 'dest') if sc.get(w)]
     if all(sc[w]['state'] == 'same' for w in needs) and sc.get('deploy') != 'force' and cli['exit'] != 0:
@@ -774,7 +823,7 @@ def check(run, only=None):
     run.extra['rule'] = ('keys: fixed edge set (all zero, all ff, every count of leading zero bytes, first byte 00..0f) + seeded random, each formatted by the real LowerHex and fed to a real --doer '
                          'that is then talked to with the original key; malformed key lines; scripted launches: the four handshake lines in all 5 causally possible orders x noise densities, '
                          'hand-written and random adversarial sequences against the real launch_doer_via_ssh; e2e: remote state x deploy behaviour x prompt answer matrix, 5 orders x noise around a real doer, '
-                         'both doers remote, deployment faults.  A case is non-trivial when a key round trip ran / the loop saw a handshake line / at least one launch happened; distinct by scenario content')
+                         'both doers remote, deploy-and-retry in which both launches get a key (key lines of all launches of a run compared), deployment faults.  A case is non-trivial when a key round trip ran / the loop saw a handshake line / at least one launch happened; distinct by scenario content')
     ctx = setup_ctx(run)
     run.check_proofs('C15', THEOREMS, extra_targets=['theories/Extract/Ex_launch.vo'])
     ctx.jbin = vlib.build_judge('launch')
